@@ -1,6 +1,6 @@
 """C18 - measurement-error modelling weights without bias and judges consistency sanely.
 
-1. Coq: coq/SelfCal/{Weight,Lsq}*.v, NullGuards.v and Properties_C18.v are rebuilt (obligations).
+1. Coq: coq/SelfCal/{Weight,Lsq,LsqLink,Guard}*.v and Properties_C18.v are rebuilt (obligations).
 2. Ties (every run, white-box build of the unmodified solve_simple / solve_auto sources):
    * the weight vector returned by _vnacal_new_solve_calc_weights against the extracted
      WeightModel.calc_weights (which equation's measurement every element was computed from);
@@ -8,7 +8,13 @@
      with index markers, against WeightModel.simple_index / auto_index;
    * degrees of freedom: recovered from the tapped exp(-chisq/2) of chisq_pvalue and the returned
      p-value on noisy data, against the extracted WeightModel.dof;
-   * which form of save_v_matrices the tree has (sanitizer run of the directed scenario).
+   * GuardModel: which V matrices _vnacal_new_solve_init allocates (shape of every standard's vector)
+     against the extracted init_vvec; the unmodified save_v_matrices / restore_v_matrices run on the
+     real solve state with markers (buffer of exactly the caller's size, under the sanitizers)
+     against the extracted save_v_matrices / restore_v_matrices: absent vectors, absent matrices
+     (UE14 / E12 with one over-determined column), all matrices present;
+   * exactly determined calibrations with the model on: p-value 1, not rejected
+     (exactly_determined_never_rejected).
 3. API-level scenarios (independent physical oracle, lib/selfcal_gen.py):
    (a) exact data, over-determined, all standards known: with set_m_error the calibration equals
        the unweighted one (1e-9) and is never rejected; NULL/NULL restores the unweighted
@@ -30,7 +36,8 @@ import selfcal_gen as G
 from C02 import Recorder, check_common, crash_sig
 
 VFILES = ["SelfCal/WeightModel.v", "SelfCal/WeightProofs.v", "SelfCal/LsqModel.v", "SelfCal/LsqProofs.v",
-          "SelfCal/WeightQI.v", "SelfCal/NullGuards.v", "Properties_C18.v"]
+          "SelfCal/LsqLinkModel.v", "SelfCal/LsqLinkProofs.v", "SelfCal/WeightQI.v", "SelfCal/GuardModel.v",
+          "SelfCal/GuardProofs.v", "Properties_C18.v"]
 
 SIG_NF = [1e-6, 1e-4, 1e-2]
 SIG_TR = [None, 0.0, 1e-5, 1e-3, 1e-1]
@@ -400,6 +407,98 @@ def part_dof_tie(ctx, rec, wb, drv):
                 "degrees of freedom of the consistency test: " + detail, bad, None)
     return ok
 
+# ------------------------------------------------------------------------------------------ V matrices walk
+def part_vguard(ctx, rec, wb, drv, nextra):
+    """ties init_vvec / save_v_matrices / restore_v_matrices of coq/SelfCal/GuardModel.v to
+    _vnacal_new_solve_init and the two static walks of vnacal_new_solve_auto.c"""
+    rng = ctx.rng
+    scs = []
+    for k, typ in enumerate(["T8", "U8", "E12"]):
+        scs.append(G.build_correlated_exact(rng, "vg_none_%s" % typ, typ=typ))          # no vector at all
+    for typ in ("UE14", "E12"):
+        for n in (2, 3):
+            scs.append(G.build_unequal_systems(rng, "vg_uneq_%s_%d" % (typ, n), typ, n))  # vector with absent matrices
+            # a system with exactly as many equations as unknowns beside an over-determined one
+            scs.append(G.build_unequal_systems(rng, "vg_equal_%s_%d" % (typ, n), typ, n, k_first=2 * n + 4, k_other=2 * n - 1))
+    scs.append(G.build_unequal_systems(rng, "vg_uneq_nomerr", "UE14", 2, merror=None))  # over-determined, model off
+    for k in range(nextra):
+        typ = rng.choice(G.TYPES)
+        n = rng.choice([1, 2]) if typ in ("T16", "U16") else rng.choice([1, 2, 3])
+        sc = G.build_general(rng, "vg_gen_%d" % k, typ, n, 1, rng.choice([0, 1, 2]), 0, excess=rng.choice([0, 1, 4]))
+        sc.cmd("merror 1 - 1e-3 1e-2")
+        scs.append(sc)
+    oks = {"shape": True, "save": True, "restore": True}
+    details = {"shape": "", "save": "", "restore": ""}
+    tot = {"null_vectors": 0, "null_matrices": 0, "present_matrices": 0}
+    for sc in scs:
+        g = G.guard_compare(ctx, wb, drv, sc)
+        ctx.count(("vguard", sc.sid))
+        if g["crash"] is not None:
+            cs = g["crash"]
+            rec.add({"kind": cs.get("kind", "fault"), "error": cs.get("error"), "function": cs.get("function")},
+                    "sanitizer fault in %s while saving / restoring the V matrices of %s: %s" % (cs.get("function"), sc.sid, cs.get("error")),
+                    sc, {"stderr": g["stderr"]})
+            for k in oks:
+                oks[k] = False
+                details[k] = details[k] or "%s: fault in %s" % (sc.sid, cs.get("function"))
+            continue
+        ctx.traces_validated += 1
+        for k in tot:
+            tot[k] += g["stats"].get(k, 0)
+        for k, op in (("shape", "_vnacal_new_solve_init"), ("save", "save_v_matrices"), ("restore", "restore_v_matrices")):
+            okk, det = g[k]
+            if not okk:
+                if oks[k]:
+                    rec.add({"kind": "disagreement", "op": op, "class": "V matrices walk"},
+                            "%s and its checked-memory model disagree: %s" % (op, det), sc, None)
+                oks[k] = False
+                details[k] = details[k] or det
+    ctx.extra["v_matrices_walk"] = dict(tot, scenarios=len(scs))
+    if min(tot.values()) == 0:
+        for k in oks:
+            oks[k] = False
+            details[k] = details[k] or "the scenarios did not exercise absent vectors, absent matrices and present matrices: %s" % tot
+    ctx.obligation("tie:v_matrix_allocation_vs_GuardModel.init_vvec", oks["shape"], details["shape"])
+    ctx.obligation("tie:save_v_matrices_vs_GuardModel", oks["save"], details["save"])
+    ctx.obligation("tie:restore_v_matrices_vs_GuardModel", oks["restore"], details["restore"])
+    return all(oks.values())
+
+
+def part_exactly_determined(ctx, rec, exe):
+    """exactly_determined_never_rejected, tied: as many equations as unknowns in every system, the
+    model on, the strictest admissible limit (1.0): the solve succeeds with p-value 1"""
+    ok, detail = True, ""
+    ncases = 0
+    for typ in G.TYPES:
+        for n in ((1,) if typ in ("T16", "U16") else (1, 2)):
+            rng = random.Random(ctx.rng.getrandbits(48))
+            sc = G.build_general(rng, "exdet_%s_%d" % (typ, n), typ, n, 1, 0, 0, excess=0)
+            sc.cmd("merror 1 - 1e-3 1e-2")
+            sc.cmd("pvalue 1.0")
+            sc.solve()
+            r = G.run_one(ctx, exe, sc)
+            s = check_common(rec, sc, r, "exactly determined, m_error on, %s %dx%d" % (typ, n, n))
+            if s is None:
+                continue
+            eqs, unk, nsys = int(s["eqs"]), int(s["xlen"]), int(s["sys"])
+            if eqs != unk or int(s["maxeq"]) * nsys != eqs:
+                continue            # the generator produced an over-determined system: not this clause
+            ctx.count(("exactly_determined", typ, n))
+            ctx.traces_validated += 1
+            ncases += 1
+            if s["rc"] != 0 or s["pvalues"][0] != 1.0:
+                ok = False
+                detail = detail or "%s: rc=%s msg=%s p-value %s (%d equations, %d unknowns)" % (sc.sid, s["rc"], s.get("msg"), s["pvalues"], eqs, unk)
+                rec.add({"kind": "exact_data_rejected", "type": typ, "why": "exactly determined"},
+                        "exactly determined %s %dx%d calibration with measurement-error modelling on: rc=%s (%s), p-value %s; "
+                        "without degrees of freedom there is nothing to reject" % (typ, n, n, s["rc"], s.get("msg"), s["pvalues"]), sc, r)
+    ctx.extra["exactly_determined_cases"] = ncases
+    if ncases == 0:
+        ok, detail = False, "no exactly determined scenario was generated"
+    ctx.obligation("tie:exactly_determined_pvalue_is_1", ok, detail)
+    return ok
+
+
 # ------------------------------------------------------------------------------------------ directed
 def part_directed(ctx, rec, exe):
     rng = ctx.rng
@@ -429,8 +528,8 @@ def part_directed(ctx, rec, exe):
                 rec.add({"kind": "outlier_accepted", "type": typ, "where": "last frequency"},
                         "%s %dx%d: a standard off by 100 sigma at the last of three frequencies: vnacal_new_solve returned 0 "
                         "(callbacks %d, p-values %s)" % (typ, n, n, s["cb"], s["pvalues"]), sc, r)
-    ctx.extra["save_v_matrices_tests_the_vector"] = guard
-    ctx.obligation("tie:save_v_matrices_form", guard is not None, "")
+    ctx.extra["save_v_matrices_no_fault_on_absent_vectors"] = guard
+    ctx.obligation("tie:save_v_matrices_directed_scenarios_ran", guard is not None, "")
     # multi-system type with m_error: uninitialised terms of later systems (valgrind, plain build)
     if shutil.which("valgrind"):
         fast = ctx.build_harness("selfcal_harness", san=False)
@@ -533,8 +632,15 @@ def run(ctx):
     ctx.trusted_base = [
         "Coq 8.16.1 kernel (coqc); vm_compute for the concrete instances; no native_compute",
         "axioms: none (Print Assumptions: Closed under the global context for every theorem of Properties_C18.v)",
-        "hand-written models coq/SelfCal/WeightModel.v, LsqModel.v, NullGuards.v, tied to the code by white-box correspondence on every run",
-        "the squared modulus N of LsqModel is a parameter with N z >= 0, N z = 0 -> z = 0, N 0 = 0 (proved for Q[i])",
+        "hand-written models coq/SelfCal/WeightModel.v, LsqLinkModel.v, GuardModel.v, tied to the code by white-box correspondence on every run; "
+        "LsqModel.v is generic weighted least-squares algebra (not tied)",
+        "the squared modulus N of LsqModel is a parameter (Section variable) with N z >= 0, N z = 0 -> z = 0, N 0 = 0 (proved for Q[i])",
+        "the weight function wt of WeightModel / LsqLinkModel (1 / sqrt(sigma_nf^2 + sigma_tr^2 |m|^2)) is an abstract Section variable "
+        "(premise: no zero value); its formula is compared numerically by the w_vector tie, it is in no theorem; the chi-square tail "
+        "function is a parameter of pvalue_of",
+        "the coefficient rows of LsqLinkModel are a parameter (with the model on they carry V-matrix factors; the V-matrix update maps are not modelled)",
+        "GuardModel: the well-formedness premises of save / restore are those init_vvec_wf proves of the model of _vnacal_new_solve_init "
+        "(tied); that the QR solve returns the least-squares minimiser is C19's subject",
         "OCaml extraction (ExtrOcamlBasic) and ocaml/glue.ml.inc; gcc, ASan/UBSan/LSan, valgrind; the python measurement oracle lib/selfcal_gen.py",
     ]
     ctx.assumptions = ["exact field arithmetic stands for binary64 arithmetic (rounding is outside every theorem)",
@@ -556,6 +662,10 @@ def run(ctx):
     dof_ok = part_dof_tie(ctx, rec, wb, drv)
     ctx.log("directed")
     part_directed(ctx, rec, exe)
+    ctx.log("V matrices walk")
+    vg_ok = part_vguard(ctx, rec, wb, drv, 8 if ctx.tier == "quick" else 80)
+    ctx.log("exactly determined")
+    ed_ok = part_exactly_determined(ctx, rec, exe)
     if ctx.tier != "quick":
         ctx.log("statistics")
         part_statistics(ctx, rec, exe)
@@ -568,3 +678,7 @@ def run(ctx):
         ctx.unproved("tie:dof", "degrees-of-freedom comparison failed", "dof tie cases of this run")
     if not tie_ok and not ctx.violations:
         ctx.unproved("tie:weights", "white-box weight comparison failed", "weight tie cases of this run")
+    if not vg_ok and not ctx.violations:
+        ctx.unproved("tie:v_matrices", "V-matrix walk comparison failed", "V-matrix scenarios of this run")
+    if not ed_ok and not ctx.violations:
+        ctx.unproved("tie:exactly_determined", "exactly determined scenario failed", "exactly determined scenarios of this run")
